@@ -207,6 +207,119 @@ fn gen_rg_rows(t: &mut Tape) -> Vec<usize> {
         .collect()
 }
 
+/// Minimal reproduction of known finding "delta-skip": Int32 column [MIN, 0, MIN, 0, ...] (constant wrapping delta
+/// i32::MIN), V2 data pages without dictionary (DELTA_BINARY_PACKED); selection skip 3, select 5.
+/// Ok(rows read) or Err(reader error).
+pub fn delta_skip_repro() -> Result<(Vec<i32>, Vec<i32>), String> {
+    use arrow_array::{ArrayRef, Int32Array};
+    let vals: Vec<i32> = (0..8).map(|i| if i % 2 == 0 { i32::MIN } else { 0 }).collect();
+    let schema = Arc::new(Schema::new(vec![Field::new("c0", DataType::Int32, false)]));
+    let batch = RecordBatch::try_new(schema.clone(), vec![Arc::new(Int32Array::from(vals.clone())) as ArrayRef]).map_err(|e| e.to_string())?;
+    let props = WriterProperties::builder().set_writer_version(WriterVersion::PARQUET_2_0).set_dictionary_enabled(false).build();
+    let mut buf = vec![];
+    let mut w = ArrowWriter::try_new(&mut buf, schema, Some(props)).map_err(|e| e.to_string())?;
+    w.write(&batch).map_err(|e| e.to_string())?;
+    w.close().map_err(|e| e.to_string())?;
+    let sel = RowSelection::from(vec![RowSelector::skip(3), RowSelector::select(5)]);
+    let rdr = ParquetRecordBatchReaderBuilder::try_new(Bytes::from(buf)).map_err(|e| e.to_string())?.with_row_selection(sel).build().map_err(|e| e.to_string())?;
+    let mut got: Vec<i32> = vec![];
+    for b in rdr {
+        let b = b.map_err(|e| e.to_string())?;
+        got.extend(b.column(0).as_any().downcast_ref::<Int32Array>().unwrap().values().iter().copied());
+    }
+    Ok((got, vals[3..].to_vec()))
+}
+
+pub fn delta_skip_bug_present() -> bool {
+    static PRESENT: std::sync::OnceLock<bool> = std::sync::OnceLock::new();
+    *PRESENT.get_or_init(|| !matches!(catch(delta_skip_repro), Ok(Ok((g, w))) if g == w))
+}
+
+fn small_int(ty: &LType) -> bool {
+    match ty {
+        LType::Int { bits, .. } => *bits <= 32,
+        LType::Dict { value, .. } => small_int(value),
+        _ => false,
+    }
+}
+
+/// flatten the non-null values of every <=32-bit integer leaf of a column (depth-first leaf order)
+fn flatten_small_ints(ty: &LType, v: &LValue, leaf: &mut usize, out: &mut Vec<Vec<i64>>) {
+    match (ty, v) {
+        (LType::Struct(fs), LValue::Struct(vs)) => {
+            for (f, x) in fs.iter().zip(vs) {
+                flatten_small_ints(&f.ty, x, leaf, out);
+            }
+        }
+        (LType::Struct(fs), _) => {
+            for f in fs {
+                flatten_small_ints(&f.ty, &LValue::Null, leaf, out);
+            }
+        }
+        (LType::List(f, _), LValue::List(xs)) => {
+            let start = *leaf;
+            let mut end = start;
+            for x in xs {
+                *leaf = start;
+                flatten_small_ints(&f.ty, x, leaf, out);
+                end = *leaf;
+            }
+            if xs.is_empty() {
+                flatten_small_ints(&f.ty, &LValue::Null, leaf, out);
+            } else {
+                *leaf = end;
+            }
+        }
+        (LType::List(f, _), _) => flatten_small_ints(&f.ty, &LValue::Null, leaf, out),
+        (t, v) => {
+            if out.len() <= *leaf {
+                out.resize(*leaf + 1, vec![]);
+            }
+            if small_int(t) {
+                if let LValue::Int(i) = v {
+                    out[*leaf].push(*i as i64);
+                }
+            }
+            *leaf += 1;
+        }
+    }
+}
+
+fn delta_skip_shape(ty: &LType, col: &[LValue]) -> bool {
+    if !ty.any(&|t| small_int(t)) {
+        return false;
+    }
+    let mut streams: Vec<Vec<i64>> = vec![];
+    for v in col {
+        let mut leaf = 0;
+        flatten_small_ints(ty, v, &mut leaf, &mut streams);
+    }
+    streams.iter().any(|s| {
+        s.windows(3).any(|w| {
+            let d1 = (w[1] as i32).wrapping_sub(w[0] as i32);
+            let d2 = (w[2] as i32).wrapping_sub(w[1] as i32);
+            d1 == d2 && (d1 as i64).abs() >= 1 << 26
+        })
+    })
+}
+
+fn shrink_small_ints(ty: &LType, v: &mut LValue) {
+    match (ty, v) {
+        (LType::Struct(fs), LValue::Struct(vs)) => {
+            for (f, x) in fs.iter().zip(vs.iter_mut()) {
+                shrink_small_ints(&f.ty, x);
+            }
+        }
+        (LType::List(f, _), LValue::List(xs)) => {
+            for x in xs.iter_mut() {
+                shrink_small_ints(&f.ty, x);
+            }
+        }
+        (t, LValue::Int(i)) if small_int(t) => *i >>= 7,
+        _ => {}
+    }
+}
+
 pub fn gen_file(c: &mut Case) -> Result<PqFile, Fail> {
     let t = &mut c.tape;
     let cfg = type_cfg();
@@ -276,6 +389,23 @@ pub fn gen_file(c: &mut Case) -> Result<PqFile, Fail> {
         .set_compression(if snappy { Compression::SNAPPY } else { Compression::UNCOMPRESSED })
         .set_max_row_group_row_count(None)
         .build();
+    // Known finding "delta-skip" (DeltaBitPackDecoder::skip, 32-bit physical type): a run of equal non-zero
+    // wrapping deltas d with |d| * (values skipped in the mini block) > i32::MAX makes skip() fail with
+    // "delta*n overflow in skip" although get() decodes the same page. The V2 writer uses DELTA_BINARY_PACKED
+    // for non-dictionary integer pages. Avoided by construction while the minimal reproduction still fails (probed once
+    // per process, so replay files stay faithful and the exclusion disappears with a fix) (conservatively: two consecutive equal deltas
+    // with |d| >= 2^26 anywhere in a 32-bit integer leaf): the values of that column are scaled down.
+    let mut written = written;
+    if v2 && delta_skip_bug_present() {
+        for (f, col) in fields.iter().zip(written.iter_mut()) {
+            if delta_skip_shape(&f.ty, col) {
+                for v in col.iter_mut() {
+                    shrink_small_ints(&f.ty, v);
+                }
+                c.excluded.push("delta-skip".to_string());
+            }
+        }
+    }
     let schema = schema_of(&fields, None);
     let fancy = t.chance(40);
     let lay = if fancy { Lay::fancy() } else { Lay::plain() };
@@ -638,15 +768,25 @@ fn gen_pred(t: &mut Tape, f: &PqFile, out_mask: &[bool]) -> PredSpec {
             mask[l] = true;
         }
     }
-    let kind = match t.below(12) {
-        0..=4 => {
-            let m = *t.pick(&[2i128, 3, 2, 5]);
-            PredKind::Mod { m, r: t.below(m as usize) as i128 }
+    // list-length tests only where the first predicate column contains a list (otherwise every row evaluates to null)
+    let first_root = (0..n).find(|l| mask[*l]).map(|l| f.leaf_root[l]).unwrap_or(0);
+    let has_list = f.fields[first_root].ty.any(&|ty| matches!(ty, LType::List(..)));
+    let modk = |t: &mut Tape| {
+        let m = *t.pick(&[2i128, 3, 2, 5]);
+        PredKind::Mod { m, r: t.below(m as usize) as i128 }
+    };
+    let kind = match t.below(24) {
+        0..=10 => modk(t),
+        11..=14 => PredKind::NotNull,
+        15..=19 => {
+            if has_list {
+                PredKind::ListLen { k: t.below(4) }
+            } else {
+                modk(t)
+            }
         }
-        5 | 6 => PredKind::NotNull,
-        7 | 8 => PredKind::ListLen { k: t.below(4) },
-        9 => PredKind::NullSome { m: *t.pick(&[2i128, 3]) },
-        10 => PredKind::True,
+        20 | 21 => PredKind::NullSome { m: *t.pick(&[2i128, 3]) },
+        22 => PredKind::True,
         _ => PredKind::False,
     };
     PredSpec { mask, kind, by_roots }
@@ -926,11 +1066,13 @@ impl SelSpec {
 }
 
 fn gen_count(t: &mut Tape, rows: usize, specials: &[usize]) -> usize {
-    match t.below(6) {
+    match t.below(12) {
         0 => 0,
         1 => rows,
         2 => rows + 1,
-        3 if !specials.is_empty() => specials[t.below(specials.len())].min(rows + 1),
+        3 | 4 | 5 if !specials.is_empty() => specials[t.below(specials.len())].min(rows + 1),
+        6 | 7 => t.below(rows.min(8) + 1),
+        8 | 9 => t.below(rows / 3 + 2),
         _ => t.below(rows + 2),
     }
 }
@@ -944,14 +1086,19 @@ pub struct CfgOpts {
 }
 impl Default for CfgOpts {
     fn default() -> Self {
-        CfgOpts { sel: 170, preds: 150, offlim: 120, with_cache: false }
+        CfgOpts { sel: 170, preds: 150, offlim: 90, with_cache: false }
     }
+}
+
+/// true with probability num/256; false when the tape is exhausted (zero = the simplest configuration)
+fn likely(t: &mut Tape, num: u32) -> bool {
+    (t.u8() as u32) + num >= 256
 }
 
 pub fn gen_cfg(t: &mut Tape, f: &PqFile, o: &CfgOpts) -> ReadCfg {
     let (proj, mask) = gen_projection(t, f);
     let nrg = f.rg_rows.len();
-    let row_groups: Option<Vec<usize>> = if nrg >= 1 && t.chance(110) {
+    let row_groups: Option<Vec<usize>> = if nrg >= 1 && likely(t, 110) {
         // subset in file order
         let mut v: Vec<usize> = (0..nrg).filter(|_| t.chance(150)).collect();
         if v.is_empty() && !t.chance(20) {
@@ -963,8 +1110,8 @@ pub fn gen_cfg(t: &mut Tape, f: &PqFile, o: &CfgOpts) -> ReadCfg {
     };
     let rgs: Vec<usize> = row_groups.clone().unwrap_or_else(|| (0..nrg).collect());
     let rows: usize = rgs.iter().map(|r| f.rg_rows[*r]).sum();
-    let sel = if t.chance(o.sel) { Some(gen_selection(t, f, &rgs)) } else { None };
-    let npreds = if t.chance(o.preds) { 1 + t.below(3) } else { 0 };
+    let sel = if likely(t, o.sel) { Some(gen_selection(t, f, &rgs)) } else { None };
+    let npreds = if likely(t, o.preds) { 1 + t.below(3) } else { 0 };
     let preds: Vec<PredSpec> = (0..npreds).map(|_| gen_pred(t, f, &mask)).collect();
     let empty_filter = npreds == 0 && t.chance(16);
     let batch_size = match t.below(8) {
@@ -978,8 +1125,8 @@ pub fn gen_cfg(t: &mut Tape, f: &PqFile, o: &CfgOpts) -> ReadCfg {
         _ => 1 + t.below(f.total + 1),
     };
     let specials = [batch_size, 2 * batch_size, f.rg_rows[rgs.first().copied().unwrap_or(0)], batch_size.saturating_sub(1)];
-    let offset = if t.chance(o.offlim) { Some(gen_count(t, rows, &specials)) } else { None };
-    let limit = if t.chance(o.offlim) { Some(gen_count(t, rows, &specials)) } else { None };
+    let offset = if likely(t, o.offlim) { Some(gen_count(t, rows, &specials)) } else { None };
+    let limit = if likely(t, o.offlim) { Some(gen_count(t, rows, &specials)) } else { None };
     let policy = match t.below(8) {
         0 | 1 => RowSelectionPolicy::Selectors,
         2 | 3 => RowSelectionPolicy::Mask,
@@ -1356,6 +1503,9 @@ pub fn check_same(what: &str, got: &ReadResult, want: &ReadResult, eff_batch: us
 // ------------------------------------------------------------------------------------------------
 // adversarial async reader + manual executor
 
+/// far above what any generated file needs (<= 6 row groups x 4 phases x pages x leaves)
+pub const MAX_IO_REQUESTS: usize = 50_000;
+
 #[derive(Default)]
 pub struct IoLog {
     pub requests: Vec<Range<u64>>,
@@ -1364,6 +1514,7 @@ pub struct IoLog {
     pub meta_calls: usize,
     pub pendings: usize,
     pub bad: Vec<String>,
+    pub livelock: bool,
 }
 
 pub struct AdvReader {
@@ -1401,6 +1552,11 @@ impl AdvReader {
     fn slice(data: &Bytes, r: &Range<u64>, log: &Arc<Mutex<IoLog>>) -> parquet::errors::Result<Bytes> {
         let mut l = log.lock().unwrap();
         l.requests.push(r.clone());
+        if l.requests.len() > MAX_IO_REQUESTS {
+            // a reader that keeps asking forever (livelock inside one poll) must not hang the harness
+            l.livelock = true;
+            return Err(parquet::errors::ParquetError::General("harness: I/O request budget exhausted".to_string()));
+        }
         if r.start >= r.end {
             l.bad.push(format!("empty or inverted range {:?}", r));
             return Ok(Bytes::new());
@@ -1614,6 +1770,7 @@ pub fn run_async(f: &PqFile, cfg: &ReadCfg, s: &AsyncSched) -> Result<(ReadResul
     })();
     let res = res?;
     let l = log.lock().unwrap();
+    ensure!(!l.livelock, format!("{}:no-progress", what), "more than {} byte ranges requested: the stream keeps asking for data without making progress", MAX_IO_REQUESTS);
     ensure!(l.bad.is_empty(), format!("{}:bad-range", what), "{} (file length {})", l.bad.join("; "), file_len);
     Ok((res, AsyncStats { io_pendings: l.pendings, requests: l.requests.len() }))
 }
